@@ -15,7 +15,7 @@ fn bytes_of(v: &Value) -> Vec<u8> {
 pub fn replay_line(st: &mut Stats, prop: &str, line: &Value) {
     st.cases += 1;
     let Ok(ont) = from_bytes(&bytes_of(&line["bytes"])) else {
-        st.violations.push(Violation { property: prop.to_string(), what: "cannot load ontology".into(), replay: json!({"cmd": "replay-setmeta", "property": prop, "diffs": []}) });
+        st.violations.push(Violation { property: prop.to_string(), what: "cannot load ontology".into(), replay: json!({"cmd": "replay-setmeta", "property": prop, "line": line, "diffs": []}) });
         return;
     };
     let mut d: Vec<String> = vec![];
@@ -88,7 +88,7 @@ pub fn replay_line(st: &mut Stats, prop: &str, line: &Value) {
     }
     if !d.is_empty() && st.violations.len() < 4 {
         d.truncate(8);
-        st.violations.push(Violation { property: prop.to_string(), what: d[0].clone(), replay: json!({"cmd": "replay-setmeta", "property": prop, "diffs": d}) });
+        st.violations.push(Violation { property: prop.to_string(), what: d[0].clone(), replay: json!({"cmd": "replay-setmeta", "property": prop, "line": line, "diffs": d}) });
     }
 }
 
@@ -106,4 +106,15 @@ pub fn run(args: &Args) {
         guard_case(&mut st, &prop, "replay-setmeta", l, |st| replay_line(st, &prop, l));
     }
     finish(st, args.req("out"), args.req("replay-dir"), json!({"lines": lines.len()}));
+}
+
+pub fn replay_one(v: &Value) -> bool {
+    silence_panics();
+    let mut st = Stats::default();
+    let prop = v["property"].as_str().unwrap_or("C13").to_string();
+    guard_case(&mut st, &prop, "replay-setmeta", &v["line"], |st| replay_line(st, &prop, &v["line"]));
+    for x in &st.violations {
+        println!("reproduced: {}", x.what);
+    }
+    !st.violations.is_empty()
 }
